@@ -217,6 +217,12 @@ bounded_only('C19', 'bounded.c19',
 
 # ------------------------------------------------------------------ CFG functions under contract (contracts/cfg.py)
 CFGM = 'contracts.cfg'
+def mixed2(pid, jobs, lean, proved_text, technique, extra_trusted=()):
+    sp = PROPS[pid]
+    sp['pyvc'] = jobs; sp['lean'] = lean; sp['level'] = 'other'; sp['technique'] = technique
+    sp['level_text'] = proved_text + ' The rest of the chain is only covered by the bounded stand-in: ' + sp['level_text'].replace('Bounded stand-in only: ', '')
+    sp['explanation'] = 'mixed: functions listed under functions_proved are verified deductively from their current source; everything under functions_bounded_only is bounded (see level_text)'
+    sp['trusted_base'] = list(sp.get('trusted_base', [])) + list(extra_trusted)
 def mixed(pid, keys, lean, proved_text, technique, extra_trusted=()):
     sp = PROPS[pid]
     sp['pyvc'] = [(CFGM, k) for k in keys]; sp['lean'] = lean; sp['level'] = 'other'
@@ -230,19 +236,19 @@ CFG_TRUST = ['CFG._productions is taken to be a set (what every constructor call
 mixed('C09', ['CFG.get_reachable_symbols', 'CFG.get_unit_pairs', 'CFG.eliminate_unit_productions', 'CFG.remove_useless_symbols', 'fn.get_productions_d'], [],
       'Deductive for get_reachable_symbols (= closure of "occurs in a body of"), get_unit_pairs (= unit-derivability from every variable), eliminate_unit_productions (exactly the non-unit bodies of every unit-reachable variable, and no unit production in the result), remove_useless_symbols (modular: given the assumed contract of get_generating_symbols the result keeps exactly the productions over generating symbols whose head is reachable, and only generating and reachable symbols) and the helper get_productions_d.',
       'contract-based deductive verification (pyvc + z3) of the structural CFG clean-up functions; bounded run-time contract checking for nullable/generating counters, epsilon removal, terminal lifting, binarisation and for the language statements', CFG_TRUST + ['contract of CFG.get_generating_symbols is ASSUMED at the call site in remove_useless_symbols (counter-based worklist: bounded only)'])
-mixed('C10', ['CFG.reverse'], ['bridge/cfgrev.lean'],
-      'Deductive for CFG.reverse: the result has exactly the productions with reversed bodies, same symbols and start symbol (all grammars); Mathlib ContextFreeGrammar.language_reverse gives the mirror language.',
-      'contract-based deductive verification (pyvc + z3, Mathlib language_reverse) for reverse; bounded run-time contract checking for substitute and its four templates', CFG_TRUST[:2])
+mixed2('C10', [('contracts.cfg', 'CFG.reverse')] + [('contracts.cfg_subst', k) for k in ('CFG.substitute', 'CFG.union', 'CFG.concatenate', 'CFG.get_closure', 'CFG.get_positive_closure')], ['bridge/cfgrev.lean'],
+      'Deductive for CFG.reverse: the result has exactly the productions with reversed bodies, same symbols and start symbol (all grammars); Mathlib ContextFreeGrammar.language_reverse gives the mirror language. '
+      'Deductive for CFG.substitute: the result is exactly one renamed copy of the host productions, with every substituted terminal replaced by the renamed start symbol of its grammar, plus one renamed copy of the productions of every substituted grammar, under renamings proved injective with pairwise disjoint ranges (ghost results R0, G, FR) - for every host, every substitution, operands sharing names or being the same object. '
+      'Deductive for union, concatenate, get_closure, get_positive_closure: each is proved to be substitute applied to exactly the template grammar of the textbook construction (S -> t0 | t1; S -> t0 t1; S -> t1 | S S | eps; S -> t1 V, V -> V V | t1 | eps) with the operands at the placeholders.',
+      'contract-based deductive verification (pyvc + z3, Mathlib language_reverse) for reverse, substitute and the four template operations; bounded run-time contract checking for the language statements and the operator forms',
+      CFG_TRUST[:2] + ['language statement of substitute from its proved structure: substitution theorem for context-free languages (Hopcroft-Motwani-Ullman Thm 7.23), assumed, backed by the bounded comparison',
+                       'Variable(str(v.value) + "#SUBS#" + str(idx)) is an uninterpreted function of (v, idx) whose idx can be read back from the name (string fact, assumed); Variable("...") / Terminal("...") with different texts are different values',
+                       'sequence extensionality is used through explicit instances (valid in the theory of sequences); pointwise facts about list.append and a theory lemma about seq[lo:] are added by the engine',
+                       'the operator forms __or__, __add__, __invert__ (one-line delegations) are not under contract'])
 mixed('C12', ['CFG.is_empty', 'CFG.get_reachable_symbols'], [],
       'Deductive for get_reachable_symbols (exactly the symbols occurring in a sentential form derivable from the start symbol, by closure induction) and is_empty (modular: start symbol not in the assumed result of get_generating_symbols).',
       'contract-based deductive verification (pyvc + z3) for reachability and the emptiness wrapper; bounded run-time contract checking for generating/nullable sets, finiteness (networkx) and word enumeration', CFG_TRUST[:2] + ['contract of CFG.get_generating_symbols is ASSUMED at the call site in is_empty'])
 
-def mixed2(pid, jobs, lean, proved_text, technique, extra_trusted=()):
-    sp = PROPS[pid]
-    sp['pyvc'] = jobs; sp['lean'] = lean; sp['level'] = 'other'; sp['technique'] = technique
-    sp['level_text'] = proved_text + ' The rest of the chain is only covered by the bounded stand-in: ' + sp['level_text'].replace('Bounded stand-in only: ', '')
-    sp['explanation'] = 'mixed: functions listed under functions_proved are verified deductively from their current source; everything under functions_bounded_only is bounded (see level_text)'
-    sp['trusted_base'] = list(sp.get('trusted_base', [])) + list(extra_trusted)
 mixed2('C13', [('contracts.pda', k) for k in ('fn.get_next_free[State]', 'fn.get_next_free[StackSymbol]', 'PDA.to_final_state', 'PDA.to_empty_stack')]
        + [('contracts.cfg2pda', 'PDA.add_transition'), ('contracts.cfg2pda', 'CFG.to_pda'), ('contracts.cfg_creator', 'CfgCreatorC.get_stack_symbol_from')], [],
        'Deductive for PDA.to_final_state and PDA.to_empty_stack: the result has exactly the operand transitions plus the bottom-marker wrapper transitions, a start state, an end state and a bottom symbol that are proved fresh (not states / stack symbols of the operand, pairwise different) through the proved contract of get_next_free, for every PDA incl. ones that already use the reserved names; the operand is unchanged. '
